@@ -237,7 +237,7 @@ func c01P2WSH(sh []byte) []byte { return append([]byte{txscript.OP_0, txscript.O
 // outputs is refused.
 func VerifC01RelevanceFilter() {
 	st := txmgr.VerifNewStoresWithKeystoreManager([]byte("DJr6BomK"))
-	const W, V = "ac10wwwwwwwwwwwwwwwwwwwwwwwwwwwwwwwwwwwwww", "ac10vvvvvvvvvvvvvvvvvvvvvvvvvvvvvvvvvvvvvv"
+	const W, V, X = "ac10wwwwwwwwwwwwwwwwwwwwwwwwwwwwwwwwwwwwww", "ac10vvvvvvvvvvvvvvvvvvvvvvvvvvvvvvvvvvvvvv", "ac10xxxxxxxxxxxxxxxxxxxxxxxxxxxxxxxxxxxxxx"
 	hW, hV, hIn, hOut := rt.NondetBytes(32), rt.NondetBytes(32), rt.NondetBytes(32), rt.NondetBytes(32)
 	rt.Assume(!bytes.Equal(hW, hV))
 	text := func(sh []byte) string {
@@ -253,6 +253,14 @@ func VerifC01RelevanceFilter() {
 	binary.BigEndian.PutUint64(done, txmgr.WalletSyncedDone)
 	st.WS.Set([]byte(W), done)
 	st.WS.Set([]byte(V), []byte{0, 0, 0, 0, 0, 0, 0, 5, 0})
+	// X: a finished wallet that is being removed (flag set) - no longer followed; it owns hX
+	hX := rt.NondetBytes(32)
+	rt.Assume(!bytes.Equal(hX, hW) && !bytes.Equal(hX, hV))
+	keystore.VerifAddWallet(st.Ks, X)
+	keystore.VerifAddAddressWithHash(st.Ks, X, text(hX), hX)
+	removed := append([]byte(nil), done...)
+	removed[8] = txmgr.WalletFlagsRemove
+	st.WS.Set([]byte(X), removed)
 
 	c01TxReg, c01TxIDs, c01TxSeeds = nil, nil, nil
 	for i := 0; i < 2; i++ {
@@ -292,7 +300,8 @@ func VerifC01RelevanceFilter() {
 	rt.Assert(err == nil, "ready-wallets-read")
 	_, wReady := ready[W]
 	_, vReady := ready[V]
-	rt.Assert(wReady && !vReady && len(ready) == 1, "only-the-finished-wallet-is-followed")
+	_, xReady := ready[X]
+	rt.Assert(wReady && !vReady && !xReady && len(ready) == 1, "only-the-finished-wallet-that-is-not-being-removed-is-followed")
 	meta := &txmgr.BlockMeta{Height: 9}
 	rel, rec, ferr := h.filterTx(tx, meta, map[wire.Hash]*txmgr.TxRecord{}, ready)
 	if idx >= 2 && inMine {
